@@ -4,6 +4,7 @@ CONSTANTS
   FocusGroups <- AllGroup
   Modes <- BothModes
   MaxWeight = 2
+  RouteWeight = 1
   MaxBuilds = 1
   KeyVariant = "ideal"
 VIEW GenView
